@@ -21,6 +21,7 @@ def check(ctx):
     repo = ctx.repo
     docs = require_labels(ADAPTIVE_LABELS)
     ctx.note("specification", {k: v[:200] for k, v in docs.items()})
+    ctx.rule("R12.7", "the step settings of SolverOptions are declared in the documented (positional) order", 1)
     ctx.rule("R12.6", "the library never rewrites the user's options (adaptive, dt_init, dt_max, multiplier, retries ...): the step rule runs with the settings given", 1)
     ctx.rule("R12.1", "proposed step == clip(1/2 (dt + dt_init / max(1e-10, mean(last `window` values))), 0, dt_max) under "
                       "adaptive and step > window; one history value max|abs_sq_psi - old_sq_psi| per update", 3)
@@ -141,6 +142,7 @@ def check(ctx):
     from ..effects import options_readonly
     options_readonly(ctx, "R12.6", "the run silently uses other step settings than the ones configured (e.g. adaptive switched off when dt_init == dt_max: "
                                    "a refused update then raises at once instead of being retried with dt * multiplier)")
+    field_order(ctx)
     retry_loop(ctx)
     step_reported(ctx, fu)
     # ---- R12.5 -----------------------------------------------------------------------------
@@ -289,3 +291,33 @@ def step_reported(ctx, fu):
     ctx.ob("R12.4", "the runner adds the returned dt to the clock", ok, where=fr.fq, construct="clock advance",
            loc=loc(fr, fr.node), message="the runner no longer advances self.time by the dt returned by the update",
            consequence="frame times are not the sum of the steps used")
+
+
+STEP_FIELDS = ("solve_time", "skip_time", "dt_init", "dt_max", "adaptive", "adaptive_window", "max_solve_retries", "adaptive_time_step_multiplier")
+
+
+def field_order(ctx):
+    """SolverOptions is a dataclass: its fields are its positional constructor parameters.  The class docstring documents them;
+    the step settings must be declared in the order in which they are documented."""
+    repo = ctx.repo
+    opt = repo.cls("tdgl.solver.options", "SolverOptions")
+    fields = [s_.target.id for s_ in opt.node.body if isinstance(s_, ast.AnnAssign) and isinstance(s_.target, ast.Name)]
+    doc = ast.get_docstring(opt.node) or ""
+    documented = []
+    in_args = False
+    for line in doc.splitlines():
+        if line.strip() == "Args:":
+            in_args = True
+            continue
+        m = re.match(r"^    (\w+):", line) if in_args else None
+        if m:
+            documented.append(m.group(1))
+    a = [x for x in fields if x in STEP_FIELDS]
+    b = [x for x in documented if x in STEP_FIELDS]
+    if len(a) < 6 or len(b) < 6:
+        raise AnalysisError(f"step fields not found in SolverOptions / its docstring ({a} / {b})")
+    ctx.ob("R12.7", "declaration order of the step settings == documented order", a == b, detail={"declared": a, "documented": b},
+           where=opt.fq, construct="SolverOptions field order (step settings)", loc=f"{opt.module.rel}:{opt.node.lineno}",
+           message=f"SolverOptions declares the step settings as {a} but documents them as {b}",
+           consequence="options built positionally in the documented order run with exchanged settings (e.g. the adaptive window and the retry "
+                       "limit swapped): the retry bound and the windowed mean are not the configured ones")
